@@ -64,6 +64,7 @@ def run(fb, rep, tier):
     truncation(fb, rep)
     totality(fb, rep)
     digit_kept(fb, rep)
+    local_lp_tolerances(fb, rep)
 
 
 def one_in(fb, base, short, inst=None):
@@ -543,3 +544,27 @@ def digit_kept(fb, rep):
                       '%s can erase size() - %d characters from position %d on, i.e. everything behind it: a literal whose digits are all zero (-0.0) loses every digit and is rejected as malformed' % (render(n)[:60], C, P))
     if k < 2:
         raise AnalysisBroken('R12.8: the zero-stripping erase calls of the number parser were not found')
+
+
+def local_lp_tolerances(fb, rep):
+    """R12.9: an SPxLPBase without a Tolerances object is inconsistent as soon as it has a column.  A function that builds an LP in a
+    default-constructed local (the dual writer, the unscaled copy of writeFile uses a copy constructor and is fine) calls setTolerances
+    on it before it is filled."""
+    rep.rule('R12.9', 'a default-constructed local LP receives tolerances before rows or columns are put into it', floor=1)
+    k = 0
+    for f in fb.methods_of(M.CLS):
+        for d in f.nodes:
+            if d.k != 'VarDecl' or not re.match(r'^(soplex::)?SPxLPBase<.*>$', d.t or ''):
+                continue
+            if d.c and d.kids[0].k == 'CXXConstructExpr' and d.kids[0].args():
+                continue          # copy-constructed: inherits the tolerances
+            fills = [n for n in f.nodes if n.is_call() and any(strip(a).k == 'DeclRefExpr' and strip(a).u == d.u for a in n.args()) and n.short in ('buildDualProblem',)]
+            fills += [n for n in f.nodes if n.k == 'CXXMemberCallExpr' and n.obj() is not None and strip(n.obj()).k == 'DeclRefExpr' and strip(n.obj()).u == d.u and re.match(r'^(add|read|load)', n.short or '')]
+            if not fills:
+                continue
+            k += 1
+            st = [n for n in f.nodes if n.k == 'CXXMemberCallExpr' and n.short == 'setTolerances' and n.obj() is not None and strip(n.obj()).k == 'DeclRefExpr' and strip(n.obj()).u == d.u and n.i < min(x.i for x in fills)]
+            rep.check(bool(st), 'R12.9', '%s|%s' % (f.short, d.n), '%s:%d' % (f.file, d.l), 'setTolerances before %s' % fills[0].short,
+                      '%s fills the default-constructed LP %s (%s) without giving it tolerances first: SPxLPBase::isConsistent fails as soon as the LP has a column, the writer aborts' % (f.short, d.n, fills[0].short))
+    if k < 1:
+        raise AnalysisBroken('R12.9: no locally built LP found')
